@@ -207,8 +207,16 @@ type VerifC14RunProbe struct {
 //	"commit-fail": a task whose dependency names a combine key the worker does
 //	               not have, so that Worker.CommitCombiner fails
 //
+// or runs one more Func, other[0], through the session (the evaluator then
+// calls Run for its single task on the same machine):
+//
+//	"compile-fail": other[0]'s invocation fails to compile on the worker
+//	                (Worker.Compile returns a remote error); default pragmas
+//	"big-procs":    other[0]'s task carries a Procs pragma larger than the
+//	                machine's task procs, so the request is clamped
+//
 // settle must return when the manager's Do loop is parked again.
-func VerifC14ProbeRun(ctx context.Context, system bigmachine.System, fv *bigslice.FuncValue, mode string, maxLoad float64, settle func()) (p VerifC14RunProbe, err error) {
+func VerifC14ProbeRun(ctx context.Context, system bigmachine.System, fv *bigslice.FuncValue, mode string, maxLoad float64, settle func(), other ...*bigslice.FuncValue) (p VerifC14RunProbe, err error) {
 	sess := Start(Bigmachine(system), Parallelism(1), MaxLoad(maxLoad))
 	defer sess.Shutdown()
 	res, err := sess.Run(ctx, fv)
@@ -232,6 +240,30 @@ func VerifC14ProbeRun(ctx context.Context, system bigmachine.System, fv *bigslic
 		Pragma:     t0.Pragma,
 	}
 	switch mode {
+	case "compile-fail", "big-procs":
+		if len(other) != 1 {
+			return p, stderrors.New("verif: mode " + mode + " needs one more Func")
+		}
+		res2, rerr := sess.Run(ctx, other[0])
+		settle()
+		p.LoadAfter = m.taskProcs
+		pragma := t0.Pragma
+		p.State = "ERROR"
+		if rerr != nil {
+			p.Err = rerr.Error()
+		} else {
+			if len(res2.tasks) != 1 || b.location(res2.tasks[0]) != m {
+				return p, stderrors.New("verif: the extra Func must be one task on the same machine")
+			}
+			pragma = res2.tasks[0].Pragma
+			p.State = res2.tasks[0].State().String()
+		}
+		// what Run must request and return: the Procs pragma, at most a whole machine
+		p.Procs = pragma.Procs()
+		if pragma.Exclusive() || p.Procs > mgr.machprocs {
+			p.Procs = mgr.machprocs
+		}
+		return p, nil
 	case "rerun":
 		task = t0
 	case "run-error":
